@@ -66,7 +66,7 @@ var segPool = []string{"a", "b", "c", "foo", "bar", ".", "..", "...", "%2e", "%2
 var queryPool = []string{"", "a", "a=b", "a=1&b=2", "a=1&a=2&b", "x=1&x=2&X=3", "&", "&&", "a&", "&a", "=", "=a", "a=", "a==b", "a=b=c", "+", "a+b=c+d", "%20", "%2B", "a=1%2B1", "%26", "a=%26b", "%3D", "a%3Db=c", "%", "%1", "%zz", "%41=%42",
 	"'", "a'b", "\"", "<>", "`", "{}", "|", "^", "#", "?", "??", "a?b", "é=ü", "%C3%A9", "%E9", "\xff", "\ufffd", "a b", " ", "b=2&a=1&c=3&a=0", "z&y&x", "a=2&a=1", "ab=&a=b", "a&a=", "%41=1&A=2", "a\tb", "\x00", "\x7f", "~!$()*,;:@/"}
 
-var fragPool = []string{"", "f", "frag", "a b", "a%20b", "%", "%1", "%zz", "%41", "é", "\xff", "\ufffd", "\"", "<", ">", "`", "'", "{}", "|", "^", "#", "##", "a#b", "?", "\x00", "\x1f", "\x7f", " ", "  ", "a\tb", "\u00a0", "~!$&()*+,;=:@/?"}
+var fragPool = []string{"#x", "##x", "%23%23x", "#%23", "%2523%2523s", "#", "", "f", "frag", "a b", "a%20b", "%", "%1", "%zz", "%41", "é", "\xff", "\ufffd", "\"", "<", ">", "`", "'", "{}", "|", "^", "#", "##", "a#b", "?", "\x00", "\x1f", "\x7f", " ", "  ", "a\tb", "\u00a0", "~!$&()*+,;=:@/?"}
 
 var userPool = []string{"", "u", "user", "User", "u%41", "u:", ":p", "u p", "u@", "@", "u/", "u?", "u#", "é", "\xff", "%", "%zz", "a:b:c", "u;v", "u=v", "u|v", "[u]", "u\\v", "u^v", "u'v", "u\"v", "u<v>", "\x00", "~!$&()*+,"}
 
